@@ -48,3 +48,37 @@ theorem basis_snaps (tol x : Q) (grid ws : List Q) (i : Nat) (hi : i < grid.leng
   simp only [if_true]
 
 end Amisc.Snap
+
+namespace Amisc.Snap
+
+theorem flagged_far (t x : Q) (grid : List Q) (h : ∀ k, k < grid.length → ¬ qabs (x - grid.getD k 0) ≤ t) :
+    flagged t x grid = grid.map fun _ => false := by
+  unfold flagged
+  apply List.map_congr_left
+  intro xk hxk
+  obtain ⟨k, hk, rfl⟩ := List.getElem_of_mem hxk
+  have := h k hk
+  rw [List.getD_eq_getElem?_getD, List.getElem?_eq_getElem hk, Option.getD_some] at this
+  exact decide_eq_false this
+
+theorem diffs_far (t x : Q) (grid : List Q) (h : ∀ k, k < grid.length → ¬ qabs (x - grid.getD k 0) ≤ t) :
+    diffs t x grid = grid.map fun xk => x - xk := by
+  unfold diffs
+  apply List.map_congr_left
+  intro xk hxk
+  obtain ⟨k, hk, rfl⟩ := List.getElem_of_mem hxk
+  have := h k hk
+  rw [List.getD_eq_getElem?_getD, List.getElem?_eq_getElem hk, Option.getD_some] at this
+  rw [if_neg this]
+
+/-- away from the nodes the first- and second-derivative formulas do not depend on the coincidence tolerance either -/
+theorem dBasis_far (tol x : Q) (grid ws : List Q) (htol : 0 ≤ tol)
+    (hfar : ∀ k, k < grid.length → ¬ qabs (x - grid.getD k 0) ≤ tol) (j : Nat) :
+    dBasis tol x grid ws j = dBasis 0 x grid ws j ∧ d2Basis tol x grid ws j = d2Basis 0 x grid ws j := by
+  have hq : ∀ k, k < grid.length → ¬ qabs (x - grid.getD k 0) ≤ 0 := fun k hk h => hfar k hk (le_trans h htol)
+  unfold dBasis d2Basis quots
+  simp only []
+  rw [flagged_far tol x grid hfar, flagged_far 0 x grid hq, diffs_far tol x grid hfar, diffs_far 0 x grid hq]
+  exact ⟨rfl, rfl⟩
+
+end Amisc.Snap
